@@ -28,7 +28,7 @@ def one(name):
 
 names = sorted(n for n in os.listdir(os.path.join(ROOT, "seeded")) if os.path.exists(os.path.join(ROOT, "seeded", n, "patch.diff")))
 tally = {}
-with ThreadPoolExecutor(4) as ex:
+with ThreadPoolExecutor(int(os.environ.get("SEED_JOBS", "4"))) as ex:
     for name, v in ex.map(one, names):
         tally[v] = tally.get(v, 0) + 1
         print(name, v, flush=True)
